@@ -43,6 +43,11 @@ func classify(sc script) string {
 		return "reg-timeout"
 	case "close":
 		return "closed"
+	case "at":
+		// the deadline of the register phase is the registration time-out; the request time-out plays no role
+		if sc.AtMs >= sc.RegT {
+			return "reg-timeout"
+		}
 	}
 	switch {
 	case sc.Name == "":
@@ -402,6 +407,8 @@ func (sc script) coq() string {
 		reg = fmt.Sprintf("RegLate %s %s", cstr(sc.Name), cstr(sc.Idx))
 	case "close":
 		reg = "RegClose"
+	case "at":
+		reg = fmt.Sprintf("(reg_at %d %d %d %s %s)", sc.RegT, sc.ReqT, sc.AtMs, cstr(sc.Name), cstr(sc.Idx))
 	default:
 		reg = fmt.Sprintf("RegNow %s %s", cstr(sc.Name), cstr(sc.Idx))
 	}
@@ -680,30 +687,82 @@ func driveHandshakes(c *hx.Ctx) error {
 		cs = append(cs, g.make("good"))
 		scases = append(scases, cs)
 	}
+	if err := runClockCases(c, st, "stall", scases, func(cs []script) (time.Duration, int) {
+		n := 0
+		for _, sc := range cs {
+			if cl := classify(sc); cl == "reg-timeout" || cl == "req-timeout" || sc.Sync == "silent" {
+				n++
+			}
+		}
+		return time.Duration(n) * tmo, n
+	}); err != nil {
+		return err
+	}
+	if atomic.LoadInt32(&stuckCases) > 0 {
+		return nil
+	}
+
+	// --- phase 3: the two time-outs configured far apart, and a peer that registers between them.  The
+	// deadline of the register phase is the REGISTRATION time-out: (A) registration 300 ms, request 6 s, a
+	// peer registering after 1.5 s is refused; (B) registration 4 s, request 500 ms, a peer registering after
+	// 1.5 s is served.  The delayed peer is the first connection of its case (the runtime's clock for a
+	// connection starts when the sequential accept loop reaches it).
+	dl := c.NewShard("deadline", regImports, "reg_case", "corr_reg", "holds_reg", 40)
+	for _, cfg := range []struct{ regT, reqT int }{{300, 6000}, {4000, 500}} {
+		adaptation.SetPluginRegistrationTimeout(time.Duration(cfg.regT) * time.Millisecond)
+		adaptation.SetPluginRequestTimeout(time.Duration(cfg.reqT) * time.Millisecond)
+		at := func(ms int) script {
+			sc := g.make("good")
+			sc.Reg, sc.AtMs, sc.RegT, sc.ReqT = "at", ms, cfg.regT, cfg.reqT
+			return sc
+		}
+		dcases := [][]script{
+			{at(1500), g.make("good")},
+			{at(1500), g.make("bad-mask"), g.make("good")},
+		}
+		if cfg.regT < cfg.reqT { // a silent peer costs the longer of the two time-outs: only where that one is short
+			dcases = append(dcases, []script{g.make("reg-never"), g.make("good")})
+		} else {
+			dcases = append(dcases, []script{g.make("cfg-silent"), g.make("good")})
+		}
+		for n := 0; n < c.Pick(0, 6); n++ {
+			dcases = append(dcases, []script{at(1200 + g.r.Intn(600)), g.make("good")})
+		}
+		if err := runClockCases(c, dl, "deadline", dcases, func(cs []script) (time.Duration, int) {
+			return time.Duration(cs[0].AtMs+cfg.regT+cfg.reqT) * time.Millisecond, 1 // generous: it only extends the wait for the sentinel
+		}); err != nil {
+			return err
+		}
+		c.Count(fmt.Sprintf("deadline.cases_reg%d_req%d", cfg.regT, cfg.reqT), len(dcases))
+	}
+	adaptation.SetPluginRegistrationTimeout(60 * time.Second)
+	adaptation.SetPluginRequestTimeout(60 * time.Second)
+	return nil
+}
+
+// runClockCases runs cases whose outcome depends on the clock (up to 6 at a time), re-runs a case that
+// disagrees with the oracle alone, up to three times, and emits the last result.
+func runClockCases(c *hx.Ctx, sh *hx.Shard, stream string, scases [][]script, budgetOf func([]script) (time.Duration, int)) error {
 	sres := make([]*regCase, len(scases))
 	serr := make([]error, len(scases))
 	run := func(i int) {
 		if atomic.LoadInt32(&stuckCases) >= maxStuckCases {
 			return
 		}
-		n := 0
-		for _, sc := range scases[i] {
-			if cl := classify(sc); cl == "reg-timeout" || cl == "req-timeout" || sc.Sync == "silent" {
-				n++
-			}
-		}
-		sres[i], serr[i] = runRegCase(scases[i], time.Duration(n)*tmo)
+		budget, n := budgetOf(scases[i])
+		sres[i], serr[i] = runRegCase(scases[i], budget)
 		if sres[i] != nil {
 			sres[i].Stalls = n
 		}
 	}
-	sem2 := make(chan struct{}, 6)
+	var wg sync.WaitGroup
+	sem := make(chan struct{}, 6)
 	for i := range scases {
 		wg.Add(1)
 		go func(i int) {
 			defer wg.Done()
-			sem2 <- struct{}{}
-			defer func() { <-sem2 }()
+			sem <- struct{}{}
+			defer func() { <-sem }()
 			run(i)
 		}(i)
 	}
@@ -713,20 +772,20 @@ func driveHandshakes(c *hx.Ctx) error {
 		// alone, up to three times, before it is reported
 		for try := 0; try < 3 && serr[i] == nil && sres[i] != nil && len(sres[i].mismatches()) > 0 &&
 			atomic.LoadInt32(&stuckCases) < maxStuckCases; try++ {
-			c.Count("stall.reruns", 1)
+			c.Count(stream+".reruns", 1)
 			run(i)
 		}
 		if serr[i] != nil {
-			return fmt.Errorf("stall case %d: %w", i, serr[i])
+			return fmt.Errorf("%s case %d: %w", stream, i, serr[i])
 		}
 		if sres[i] == nil {
-			c.Count("stall.cases_skipped_after_stuck_runtime", 1)
+			c.Count(stream+".cases_skipped_after_stuck_runtime", 1)
 			continue
 		}
-		emitRegCase(c, st, "stall", sres[i])
-		c.Count("stall.stalling_connections", sres[i].Stalls)
+		emitRegCase(c, sh, stream, sres[i])
+		c.Count(stream+".stalling_connections", sres[i].Stalls)
 		if i == 0 {
-			c.Sample(map[string]interface{}{"stream": "stall", "case": sres[i]}, 8)
+			c.Sample(map[string]interface{}{"stream": stream, "case": sres[i]}, 8)
 		}
 	}
 	return nil
@@ -940,6 +999,6 @@ func driveRegister(c *hx.Ctx) error {
 		}
 	}
 	c.Stats.Exhaustive = !c.Quick()
-	c.Stats.Rule = "index: CheckPluginIndex on a boundary corpus, all 100 valid indices, all pairs over a 14-byte alphabet and random byte strings; register: per case 4-20 scripted raw plugins (mux+ttrpc spoken directly) connect in order to one fresh Adaptation, at least one bad one (empty name, bad index from the corpus, mask with extra/negative bits, configure error/close, early close, sync error) ahead of a good one, then a sentinel, then all 13 events are fired once; whatever the runtime fails to do within 20 s (a sentinel never synchronised, a sync block that cannot be taken, a peer whose registration step never ends: closed by the driver and recorded as not registered / never configured / never synchronised / no events) is an observation judged by the oracle, and after 3 such cases the rest of the stream is skipped; non-trivial = bad and several good connections in one case; stall: the same with 1-3 peers that never register / register late / never answer Configure or Synchronize under 400 ms time-outs (clock-dependent disagreements re-run alone up to 3 times); socket: real Start in a helper subprocess per umask (quick: 40 incl. boundaries, thorough: all 512) on three nested not yet existing directories, and with external connections disabled"
+	c.Stats.Rule = "index: CheckPluginIndex on a boundary corpus, all 100 valid indices, all pairs over a 14-byte alphabet and random byte strings; register: per case 4-20 scripted raw plugins (mux+ttrpc spoken directly) connect in order to one fresh Adaptation, at least one bad one (empty name, bad index from the corpus, mask with extra/negative bits, configure error/close, early close, sync error) ahead of a good one, then a sentinel, then all 13 events are fired once; whatever the runtime fails to do within 20 s (a sentinel never synchronised, a sync block that cannot be taken, a peer whose registration step never ends: closed by the driver and recorded as not registered / never configured / never synchronised / no events) is an observation judged by the oracle, and after 3 such cases the rest of the stream is skipped; non-trivial = bad and several good connections in one case; stall: the same with 1-3 peers that never register / register late / never answer Configure or Synchronize under 400 ms time-outs (clock-dependent disagreements re-run alone up to 3 times); deadline: the two time-outs far apart (registration 300 ms / request 6 s, and 4 s / 500 ms) and a first connection that registers 1.5 s after connecting: refused exactly when that is after the REGISTRATION time-out, whatever the request time-out; socket: real Start in a helper subprocess per umask (quick: 40 incl. boundaries, thorough: all 512) on three nested not yet existing directories, and with external connections disabled"
 	return nil
 }
